@@ -59,8 +59,8 @@ block whose statements are again in the fragment), to any depth; with pairwise d
 statements, function scopes and function body blocks; the position of an expression/declaration statement may coincide
 with that of a function it starts with).  For every such script, every statement reported by `no-unreachable` is
 unreachable in the reference semantics, both from the start of the script and from the entry of every function in it.
-Outside the fragment: statements nested directly in expressions other than through a function scope (class static
-blocks, `with` bodies: `Kid.stmt`, and `Kid.block` other than a function or catch body), and module items. -/
+Statements nested directly in expressions (`with` bodies, class static blocks) are in the fragment, see below and
+`DL.Lemmas.CFPos` for the positions where they are admitted. -/
 theorem C10_partial (ss : List Stmt) (hf : (stmtsOfList ss).inF = true) (hnd : (stmtsOfList ss).positions.Nodup) (p : Nat)
     (hp : p ∈ Program.flagged { isModule := false, items := ss.map .stmt }
       (analyze { isModule := false, items := ss.map .stmt })) :
@@ -171,31 +171,55 @@ example :
     Program.flagged (prog ss3) (analyze (prog ss3)) = [40] := by
   decide
 
-/-! ## why `Kid.stmt` and free-standing `Kid.block` stay outside the fragment
+/-! ## statements nested directly in expressions: `with` bodies (`Kid.stmt`), class static blocks (`Kid.block`)
 
-Statements nested directly in an expression tree (`with` bodies: `Kid.stmt`; class static blocks: `Kid.block`) are visited
-by the analyzer in the *enclosing* scope: a `return`/`throw` in them ends that scope, and the following statements are
-flagged.  The reference semantics (`CFRef`) does not follow them: `evalCompl` makes the enclosing statement complete
-normally whatever they do (`Kid.mayThrow (.stmt _) = false`, no completions of nested statements), while `Kids.flowReach`
-takes them to be entered.  So *with respect to this reference semantics* the theorem is false for them — the two smallest
-counterexamples below.  In real JavaScript the analyzer is right in both (the statement after `with (o) return;` is
-unreachable): what is too coarse is the reference semantics, not the linter.  Admitting these kids needs a reference
-semantics that sequences the completions of flow kids into `evalCompl` (a change of `CFRef`, not done here).  A search
-over 7 000 programs found no violation when every such nested body can complete normally. -/
+They execute in the enclosing flow, and the analyzer visits them in the enclosing scope: a `return`/`throw` in them ends
+that scope.  The reference semantics now follows them too (`Kids.compl`, `Kids.flowReach` in `CFRef`), and they are in
+the fragment: without restriction among the kids of expression / declaration / `with` statements; with "plain"
+completions (normal or throw — the rule for static blocks) in `return`/`throw` arguments, `if`/`while`/`for` tests, `for`
+initialisers and the iterated expression of `for-in/of`. -/
 
--- `with (o) return;  foo();`
+-- `with (o) return;  foo();` and `class A { static { throw e; } }  foo();`: `foo()` is flagged, and unreachable
 example :
-    let prog : Program := { isModule := false, items := [
+    let prog1 : Program := { isModule := false, items := [
       .stmt (.simple 0 .other (.cons (.expr (.ident "o") .nil) (.cons (.stmt (.ret 9 .nil)) .nil))),
       .stmt (.simple 20 .exprStmt (.cons (.expr .other .nil) .nil))] }
-    prog.flagged (analyze prog) = [20] ∧ prog.reachable 20 = true := by decide
-
--- `class A { static { throw e; } }  foo();`
-example :
-    let prog : Program := { isModule := false, items := [
+    let prog2 : Program := { isModule := false, items := [
       .stmt (.simple 0 .decl (.cons (.block 17 (.cons (.throw 19 (.cons (.expr (.ident "e") .nil) .nil)) .nil)) .nil)),
       .stmt (.simple 40 .exprStmt (.cons (.expr .other .nil) .nil))] }
+    itemsInF prog1.items = true ∧ (itemsPositions prog1.items).Nodup ∧
+    prog1.flagged (analyze prog1) = [20] ∧ prog1.reachable 20 = false ∧
+    itemsInF prog2.items = true ∧ (itemsPositions prog2.items).Nodup ∧
+    prog2.flagged (analyze prog2) = [40] ∧ prog2.reachable 40 = false := by decide
+
+/-! ### three shapes where the analyzer model is unsound (linter bug candidates), kept outside the fragment
+
+The analyzer visits the test of a `do-while` unconditionally, the update of a `for` before its test and body, and the
+binding of a `for-in/of` before the iterated expression.  With a class static block that throws in those places it
+concludes that what follows cannot be reached, although it can: -/
+
+-- `do break; while (class { static { throw e; } });  foo();` — the test is never evaluated, `foo()` (40) runs
+example :
+    let thr : Kids := .cons (.expr .other (.cons (.block 20 (.cons (.throw 22 (.cons (.expr (.ident "e") .nil) .nil)) .nil)) .nil)) .nil
+    let prog : Program := { isModule := false, items := [.stmt (.doWhileS 0 (.brk 3 none) thr false),
+      .stmt (.simple 40 .exprStmt (.cons (.expr .other .nil) .nil))] }
     prog.flagged (analyze prog) = [40] ∧ prog.reachable 40 = true := by decide
+
+-- `for (; x; class { static { throw e; } }) ;  foo();` — the loop can end by its test before any update, `foo()` (40) runs
+example :
+    let thr : Kids := .cons (.expr .other (.cons (.block 10 (.cons (.throw 12 (.cons (.expr (.ident "e") .nil) .nil)) .nil)) .nil)) .nil
+    let prog : Program := { isModule := false, items := [
+      .stmt (.forS 0 .nil thr (.cons (.expr (.ident "x") .nil) .nil) true false (.simple 30 .empty .nil)),
+      .stmt (.simple 40 .exprStmt (.cons (.expr .other .nil) .nil))] }
+    prog.flagged (analyze prog) = [40] ∧ prog.reachable 40 = true := by decide
+
+-- `for ([a = class { static { throw e; } }] of class { static { foo(); } }) ;` — the iterated expression is evaluated
+-- first: `foo()` (22) runs
+example :
+    let thr : Kids := .cons (.expr .other (.cons (.block 5 (.cons (.throw 7 (.cons (.expr (.ident "e") .nil) .nil)) .nil)) .nil)) .nil
+    let right : Kids := .cons (.expr .other (.cons (.block 20 (.cons (.simple 22 .exprStmt (.cons (.expr .other .nil) .nil)) .nil)) .nil)) .nil
+    let prog : Program := { isModule := false, items := [.stmt (.forInOf 0 thr right (.simple 30 .empty .nil))] }
+    prog.flagged (analyze prog) = [22] ∧ prog.reachable 22 = true := by decide
 
 /-! ## regression examples: the defects found and repaired in /repo, decided on the model -/
 -- `do { if (x) continue; return 1; } while (c); foo();`  (F7): `foo()` at 50 is not flagged
